@@ -374,10 +374,10 @@ theorem eth_tag_names_follower (dst src : Bytes) (type : Nat) (n : Layer) (rest'
     simp only []
     rw [show flagToEther (.dot1q a b c d e) = 0x8100 from rfl]
     split at ht <;> simp only [Option.some.injEq] at ht <;> subst ht <;> simp_all [Tins.Gen.TagsC05.ethQINQ, Tins.Gen.TagsC05.ethUNKNOWN]
-  | eapol _ _ => simp [wf] at hn
+  | eapol a b =>
+    simp only [etherTypeOf, Option.some.injEq] at ht; subst ht
+    simp only []; rw [show flagToEther (.eapol a b) = 0x888E from rfl]; simp [Tins.Gen.TagsC05.ethUNKNOWN]
   | «opaque» _ _ _ => simp [wf] at hn
-  | llc _ _ => simp [wf] at hn
-  | radiotap _ => simp [wf] at hn
   | _ => simp [etherTypeOf] at ht
 
 /-- **IPv4 protocol names the follower** (IP-in-IP, IPv6, TCP, UDP, ICMP, ICMPv6, AH, ESP). -/
@@ -416,9 +416,6 @@ theorem ip_proto_names_follower (tos id flags fragoff ttl proto : Nat) (src dst 
     simp only [ipProtoOf, Layer.kind, Option.some.injEq] at ht; subst ht
     rw [show flagToIp (.esp a b) = 50 from rfl]; simp
   | «opaque» _ _ _ => simp [wf] at hn
-  | llc _ _ => simp [wf] at hn
-  | radiotap _ => simp [wf] at hn
-  | eapol _ _ => simp [wf] at hn
   | _ => simp [ipProtoOf, Layer.kind] at ht
 
 /-- **IPv6 next header names the follower** when there is no extension header (with extension headers the fixed header
@@ -455,9 +452,6 @@ theorem ip6_next_header_names_follower (tc flow hop nh : Nat) (src dst : Bytes)
     simp only [ipProtoOf, Layer.kind, Option.some.injEq] at ht; subst ht
     rw [show flagToIp (.esp a b) = 50 from rfl]; simp
   | «opaque» _ _ _ => simp [wf] at hn
-  | llc _ _ => simp [wf] at hn
-  | radiotap _ => simp [wf] at hn
-  | eapol _ _ => simp [wf] at hn
   | _ => simp [ipProtoOf, Layer.kind] at ht
 
 /-- **802.1Q tag names the follower** (an inner tag keeps 0x8100; PPPoE by its stage — fixed finding KF-C05-5). -/
@@ -484,10 +478,10 @@ theorem dot1q_tag_names_follower (prio cfi id type : Nat) (padf : Bool) (n : Lay
     simp only [etherTypeInTag, etherTypeOf, Option.some.injEq] at ht; subst ht
     simp only [pduToEther]
     by_cases hc : code = 0 <;> simp [hc, Tins.Gen.TagsC05.ethPPPOES, Tins.Gen.TagsC05.ethPPPOED, Tins.Gen.TagsC05.ethUNKNOWN]
-  | eapol _ _ => simp [wf] at hn
+  | eapol a b =>
+    simp only [etherTypeInTag, etherTypeOf, Option.some.injEq] at ht; subst ht
+    rw [show pduToEther (.eapol a b) = 0x888E from rfl]; simp [Tins.Gen.TagsC05.ethUNKNOWN]
   | «opaque» _ _ _ => simp [wf] at hn
-  | llc _ _ => simp [wf] at hn
-  | radiotap _ => simp [wf] at hn
   | _ => simp [etherTypeInTag, etherTypeOf] at ht
 
 /-- the class → tag and tag → class tables of `pdu_helpers.cpp` are inverse to each other on every class that has a
